@@ -50,6 +50,16 @@ Definition chk (c : case) : list N :=
   match c with
   | CErs sn obs =>
       code_if (step_ok_ers sn obs) 1 ++ code_if (mon_gate sn obs) 12 ++ code_if (mon_stamp sn obs) 13 ++
+      (* "t is the time since its Active condition last became true": a replica set synced in another role (superseded,
+         or a canary) does not keep a True Active condition - else the ramp of a later re-activation starts in the past *)
+      match ers_ctx sn, ob_status obs with
+      | Some cx, Some st =>
+          match cx_role cx with
+          | RoleActive => []
+          | _ => code_if (negb (is_cond_true (rs_conds st) CT_Active)) 14
+          end
+      | _, _ => []
+      end ++
       match ers_ctx sn with
       | Some cx =>
           match ers_rolling sn cx with
